@@ -50,6 +50,23 @@ def _one(sc):
                 same=all(got[d] == c.truth(d) for d in "cs"))
 
 
+def _quic_wf(job):
+    from harness.quicrun import run_quic, observed_dgrams
+    b, seed, params, opts = job
+    try:
+        c, payload, fl, cap, res = run_quic(b, seed, params, opts=opts)
+    except Exception:
+        import traceback
+        return dict(machinery=traceback.format_exc()[-1500:])
+    bad = []
+    if res.crashed or res.out is None:
+        bad.append("run aborted: " + (res.exc or "no output").strip().splitlines()[-1])
+    else:
+        _got, probs = observed_dgrams(res, fl, opts)
+        bad += ["output not well-formed: " + p_ for p_ in probs[:2]]
+    return dict(b=b, seed=seed, params=params, opts=opts, bad=bad)
+
+
 def _sample(job):
     import os
     from harness import runner
@@ -133,6 +150,24 @@ def run(chk):
                 t["_sc"] = res["sc"]
                 traces.append(t)
     validate_out(chk, traces)
+    # QUIC: behaviours of Quic.tla (all frame shapes incl. FIN-only STREAM frames and post-handshake CRYPTO, Retry, 0-RTT, key updates, stray
+    # datagrams incl. random runts on the connection's own 4-tuple) under option combinations: no abort, well-formed UDP output
+    from checks import c02
+    from harness.quicrun import run_quic, observed_dgrams
+    qb = c02.gen(chk, dict(MaxApp="3"), 15 if quick else 200, chk.seed + 3)
+    rng.shuffle(qb)
+    qjobs = []
+    for b in qb[: 80 if quick else 2000]:
+        prm = c02.params_for(rng, quick)
+        prm["own_noise"] = rng.choice([False, True, "runts"])
+        qjobs.append((b, rng.randrange(1 << 30), prm, rng.choice([[], ["-a"], ["-m"], ["-a", "-m", "443:9443"]])))
+    for res in pool_map(_quic_wf, qjobs):
+        if "machinery" in res:
+            raise Exception("replay failed in the harness: " + res["machinery"])
+        chk.evaluations += 1
+        chk.distinct.add(json.dumps(["quic", res["seed"], res["opts"]]))
+        for b_ in res["bad"]:
+            chk.violation("QUIC: " + b_, dict(behaviour=res["b"], seed=res["seed"], params=res["params"], opts=res["opts"], why=b_))
     # "whatever the input": the repository's sample captures (TLS and QUIC, complete and incomplete) under option combinations,
     # with the right, a foreign and no key log, must all yield well-formed files
     from checks import samples
